@@ -13,7 +13,7 @@
  */
 static void print_escaped(const char *str)
 {
-	if (strpbrk(str, " \t\"\\") == NULL && str[0] != '\0') {
+	if (strpbrk(str, " \t\r\v\f\"\\") == NULL && str[0] != '\0') {
 		fputs(str, stdout);
 		return;
 	}
